@@ -165,6 +165,7 @@ Attr make_attr(uint64_t seed, bool wifi) {
         if ((x >> 20) & 1) { for (size_t i = 0; i < m.size() && i < b.size(); i++) b[i] = m[i]; } // overwrite the start (size unchanged)
         else if (unit == 1) b.insert(b.begin(), m.begin(), m.end());                                 // or prepend
         if (((x >> 24) & 7) == 0) b = m;                                                              // or the property is the mark alone
+        if (((x >> 28) & 3) == 0 && unit == 1) { static const std::vector<Bytes> TAIL = {{0x00, 0x00}, {0x00}, {0x00, 0x00, 0x00, 0x00}, {0xFF, 0xFE}, {0x0D, 0x0A}, {0x20}, {0x2E}}; const Bytes &t = TAIL[(x >> 32) % TAIL.size()]; b.insert(b.end(), t.begin(), t.end()); } // terminators / separators at the END of a property are platform bytes too
     };
     stamp(a.fname, 0xF1A6, 1); stamp(a.icon, 0x1C01, 1); stamp(a.hwid, 0x4D1D, 2);
     return a;
@@ -425,7 +426,7 @@ int lltd_port_get_mtu(void *ctx, size_t *out) {
     if (getter_fails(n, G_MTU)) {
         note_getfail(G_MTU);
         // how a port fails to tell the MTU: error with the out parameter untouched / zeroed / holding a small leftover, or "success" with 0
-        switch ((n->cfg.attr_seed >> 2) % 4) { case 1: *out = 0; return -1; case 2: *out = 0; return 0; case 3: *out = 16; return -1; default: return -1; }
+        switch ((n->cfg.attr_seed >> 2) % 6) { case 1: *out = 0; return -1; case 2: *out = 0; return 0; case 3: *out = 16; return -1; case 4: *out = 9000; return -1; /* ioctl style: the (stale) field is copied out, then the error is returned */ case 5: *out = 65535; return -1; default: return -1; }
     }
     *out = n->cfg.mtu;
     return 0;
@@ -846,6 +847,8 @@ void World::handle_delivery(int node, const Frame &f, int op_index, const Op *op
     d.mtu = n.cfg.mtu;
     d.len = std::min(f.data.size(), (size_t)n.cfg.mtu);
     if (d.len) memcpy(n.rxbuf, f.data.data(), d.len); // recvfrom(sock, buf, MTU): tail keeps its previous content
+    if (op) for (auto &ft : op->f) if (ft.kind == F_TAILMAC && ft.a >= 1 && ft.a <= 5 && (plan.memfill_seed & 1) && d.len >= (size_t)ft.a && d.len + (6 - (size_t)ft.a) <= n.cfg.mtu && memcmp(n.rxbuf + d.len - ft.a, n.attr.mac.a, (size_t)ft.a) == 0)
+        memcpy(n.rxbuf + d.len, n.attr.mac.a + ft.a, 6 - (size_t)ft.a); // stale content: the remaining bytes of the address happen to follow the frame
     Bytes snap(n.rxbuf, n.rxbuf + n.cfg.mtu);
     d.buf = snap.data();
     cur = &n; curd = &d; curt = nullptr;
@@ -1169,7 +1172,7 @@ void World::exec_op(int i) {
                 if (nodes[op.a[0]]->twin >= 0 && nodes[nodes[op.a[0]]->twin]->glue) glue_set_mac(nodes[nodes[op.a[0]]->twin]->glue, m.a);
                 note("mac_change");
             }
-            if ((op.a[2] & 0x80000) && nodes[op.a[0]]->ctx_gen < 255 && nodes[op.a[0]]->twin < 0) { // hot-plug: the interface goes away and comes back; the daemon builds new state under a NEW context pointer
+            if ((op.a[2] & 0x80000) && nodes[op.a[0]]->ctx_gen < 1023 && nodes[op.a[0]]->twin < 0) { // hot-plug: the interface goes away and comes back; the daemon builds new state under a NEW context pointer
                 Node &x = *nodes[op.a[0]];
                 cur = &x; ledger_tag = 1; handling_base = now; sleep_accum = 0;
                 glue_destroy(x.glue);
@@ -1178,6 +1181,11 @@ void World::exec_op(int i) {
                 x.usable = x.glue && glue_usable(x.glue);
                 cur = nullptr; ledger_tag = 0;
                 x.pending.clear(); x.wake_set = false; x.busy_until = 0;
+                // what the core keeps under the abandoned context pointer stays allocated for good; it belongs to no interface any more
+                for (auto &kv : ledger) if (kv.second.node == (int)op.a[0] && kv.second.tag != 1) {
+                    if ((size_t)kv.second.node < node_live_count.size()) { node_live_count[kv.second.node]--; node_live_bytes[kv.second.node] -= kv.second.size; if (kv.second.tag == 2) node_icon_bytes[kv.second.node] -= kv.second.size; }
+                    kv.second.node = -2;
+                }
                 note("hotplug_fresh_context");
             }
             if ((op.a[2] & 0x40000) && op.a[3] >= 64 && op.a[3] <= 65536) { // the link's MTU changes in place (same context): the daemon re-sizes its receive buffer
@@ -1243,6 +1251,8 @@ void World::exec_api(int i, const Op &op) {
     cur = &n; curd = nullptr; curt = nullptr;
     handling_base = now; sleep_accum = 0; ledger_tag = 0;
     glue_view_get(n.glue, &before);
+    alloc_index = 0; allocfail_k = 0; allocfail_n = 1;
+    for (auto &ft : op.f) if (ft.kind == F_ALLOCFAIL) { allocfail_k = ft.a; allocfail_n = ft.b > 0 ? ft.b : 1; } // should this call allocate, the allocation fails
     int64_t ret = 0;
     Mac km = api_key_mac((int)op.a[0]);
     uint16_t kg = api_key_gen((int)op.a[0]);
@@ -1267,6 +1277,7 @@ void World::exec_api(int i, const Op &op) {
     default: break;
     }
     glue_view_get(n.glue, &after);
+    allocfail_k = 0;
     cur = nullptr;
     if (plan.call_us && sleep_accum) { now += sleep_accum; sleep_accum = 0; } // the time the call itself took has passed
     log.u64((uint64_t)ret); log.u64((uint64_t)after.mapping_state * 16 + (uint64_t)after.session_state); log.u64(after.band_Ni); log.u64((uint64_t)after.table_count);
